@@ -172,6 +172,35 @@ fn big_output_cases(ctx: &Ctx) -> Vec<(Case, bool)> {
     out
 }
 
+// A loop binds its target turn by turn: the turns before an element that does
+// not fit the pattern have run (and printed), and a loop that leaves before
+// reaching it never fails. Likewise arguments bind when the call happens.
+fn lazy_binding_cases(ctx: &Ctx) -> Vec<(Case, bool)> {
+    let mut out = vec![];
+    let rows = ["[[1, 2], [3, 4], [5]]", "[[1, 2], [3, 4], 5]", "[[1, 2], [3, 4], [5, 6, 7]]", "[{\"a\": 1}, {\"a\": 2}, {\"b\": 3}]"];
+    for (k, r) in rows.iter().enumerate() {
+        let target = if k == 3 { "{a}" } else { "[a, b]" };
+        let show = "a";
+        let src = format!("rows := {r}\nfor [i, {target}] in rows {{\n    print({show})\n}}\nprint(\"after\")\n");
+        let first = if k == 3 { "1\n2\n" } else { "1\n3\n" };
+        let mut e = Expect::err(first.as_bytes().to_vec());
+        e.diag = vec![DiagPred::WellFormed{max_line: 5}];
+        ctx.label("binding turn by turn");
+        out.push((Case{property: "C17".into(), kind: "lazy_binding".into(), srcs: vec![src.into_bytes()], pred: Pred::Expect(e), note: "the third element does not fit the for target: two turns have printed".into()}, true));
+        let src = format!("rows := {r}\nfn first_two() {{\n    for [i, {target}] in rows {{\n        print({show})\n        if i == 1 {{\n            return i\n        }}\n    }}\n    return -1\n}}\nprint(first_two())\nfor [i, {target}] in rows {{\n    if i == 1 {{\n        break\n    }}\n}}\nprint(\"after\")\n");
+        ctx.label("binding turn by turn");
+        out.push((Case{property: "C17".into(), kind: "lazy_binding".into(), srcs: vec![src.into_bytes()], pred: Pred::Expect(Expect::ok(format!("{first}1\nafter\n").into_bytes())), note: "the loop leaves before the element that does not fit: success".into()}, true));
+    }
+    // A parameter pattern that does not fit: the failure belongs to the call
+    // (callee named, one trace line per active call).
+    let src = "fn add([ax, ay], [bx, by]) {\n    return [ax + bx, ay + by]\n}\nfn total(ps) {\n    print(\"in total\")\n    return add(ps[0], ps[1])\n}\nprint(total([[1, 2], [3, 4]]))\nprint(total([[1, 2], [3, 4, 5]]))\n";
+    let mut e = Expect::err(b"in total\n[\n    4,\n    6,\n]\nin total\n".to_vec());
+    e.diag = vec![DiagPred::WellFormed{max_line: 10}, DiagPred::InFunc(Some("add".into())), DiagPred::Trace(vec![crate::diag::TraceLine{line: 6, col: 12, func: "total".into()}, crate::diag::TraceLine{line: 9, col: 7, func: "<root>".into()}])];
+    ctx.label("binding turn by turn");
+    out.push((Case{property: "C17".into(), kind: "lazy_binding".into(), srcs: vec![src.as_bytes().to_vec()], pred: Pred::Expect(e), note: "parameter pattern mismatch two calls deep".into()}, true));
+    out
+}
+
 pub fn run(ctx: &Ctx) {
     ctx.set_rule("failing programs by construction: 46 failing expressions x 42 syntactic slots (+ return slots) and 37 failing statements x 4 positions, x call wrappers (named, anonymous, method, callback, builtin argument) at depth 0..5, jumps outside their construct, every lexical / parse error class; plus random failing programs from the tape decoder (hostile profile) in random layouts; oracle: stdout = the reference's output up to the failure, exit 103, stderr line 1 `<path>:<l>:<c>: [in '<innermost function>': ]<message>` with l within the script, no internal identifier, Stacktrace with exactly one line per active call at the position of that call, innermost first, ending at <root>; successful programs: empty stderr, exit 0; recursion through three self-call sites; a print that fails after 64 KiB and complete prints of up to 600 KB before a failure. Non-trivial = raised at call depth >= 1 or at a position other than a top-level expression statement; distinct = distinct source texts");
     ctx.replay_corpus(None);
@@ -188,6 +217,7 @@ pub fn run(ctx: &Ctx) {
     ctx.judge_all(cases, Via::Cli, None);
     ctx.judge_all(front_errors(), Via::Cli, None);
     ctx.judge_all(big_output_cases(ctx), Via::Cli, None);
+    ctx.judge_all(lazy_binding_cases(ctx), Via::Cli, None);
     // Random programs, hostile profile: most of them fail somewhere.
     let mut cfg = gen::GenCfg::balanced();
     cfg.sloppy = 6;
